@@ -324,6 +324,9 @@ def run(run):
         add(case, line, sec, got, True)
     for i in range(run.budget(3000, 60000)):
         doc_case(run, run.rng, i)
+    # dotted curve mnemonics next to curve lines whose description holds a double dot, in every order within one process
+    from . import c07
+    c07.dotted_curves(run)
     # (a) exhaustive small scopes (context: most of these strings are junk, the property does not speak about them)
     n = 0
     for line, sec in exhaustive(run):
@@ -446,7 +449,7 @@ def doc_replay(run, c):
 
 def shrink(run, f):
     c = f["case"]
-    if "fields" not in c or "doc" in c:
+    if "fields" not in c or "doc" in c or "dotted" in c:
         return f
     fields, pads, sec = list(c["fields"]), list(c["pads"]), c["sec"]
 
@@ -480,6 +483,9 @@ def shrink(run, f):
 
 def replay(run, payload):
     c = payload["case"]
+    if "dotted" in c:
+        from . import c07
+        return not c07.violates(c)
     if "doc" in c:
         try:
             return doc_replay(run, c)
